@@ -59,6 +59,7 @@ RULE = (
     "would write them, memcached get/set raising, truncating, losing, evicting; "
     "thorough = all positions per history, quick = a seeded sample. Non-trivial = a fault fired and a later load was checked; "
     "distinct = digest(history, configs, fired faults, schedule)."
+    ' Loaders: DictLoader / FunctionLoader with a fresh source string per load / ChoiceLoader with a shadowed copy of every name.'
 )
 ASSUMPTIONS = [
     "SimFS models POSIX semantics: rename atomicity, unlink keeps open files readable, no fsync => any prefix of an un-synced file may survive power loss",
@@ -158,7 +159,7 @@ DATA = {"s": "<&>", "f": _f, "o": Obj(), "l": [1, 2, 3]}
 # only in these may share cache entries and must still each render with their own (no tolerance, no classifier)
 RT_FILTERS = [lambda v: f"f0({v})", lambda v: f"f1[{v}]", lambda v: f"f2<{v}>"]
 RT_TESTS = [lambda v: True, lambda v: False, lambda v: len(str(v)) == 3]
-TAIL = "{{ missing }}|{{ s|rtf }}|{% if s is rtt %}T{% else %}F{% endif %}|{{ rtg }}\n"
+TAIL = "{{ missing }}|{{ s|rtf }}|{% if s is rtt %}T{% else %}F{% endif %}|{{ rtg }}|{{ xg|default('nx') }}|{{ xg is defined }}\n"
 
 
 def source(name: str, v: int, variant: int) -> str:
@@ -190,6 +191,8 @@ def make_env(cfg: dict, loader, bcc):
     env.filters["rtf"] = RT_FILTERS[rt]
     env.tests["rtt"] = RT_TESTS[rt]
     env.globals["rtg"] = f"g{rt}"
+    if cfg.get("xg"):
+        env.globals["xg"] = "XG"  # a global that only some environments HAVE (which names exist is run-time configuration)
     return env
 
 
@@ -267,6 +270,7 @@ def run(tape: Tape) -> Outcome:
     base["enable_async"] = base["enable_async"] and tape.draw(2) == 1
     base["undefined"] = tape.weighted([5, 1, 1, 1])
     base["rt"] = tape.draw(3)
+    base["xg"] = bool(tape.draw(2))
     cfgs = []
     for p in range(nproc):
         c = dict(base)
@@ -274,15 +278,19 @@ def run(tape: Tape) -> Outcome:
             o = OPTIONS[tape.draw(len(OPTIONS))]
             c[o] = not c[o]
         if cfgmode == 2 and p > 0:
-            if tape.draw(2):
+            which = tape.draw(3)
+            if which == 1:
                 c["undefined"] = (c["undefined"] + 1 + tape.draw(3)) % 4
+            elif which == 2:
+                c["xg"] = not c["xg"]
             else:
                 c["rt"] = (c["rt"] + 1 + tape.draw(2)) % 3
         cfgs.append(c)
     names = ("a", "b")[: 1 + tape.draw(2)]
     variant = {n: tape.draw(4) for n in names}
     ignore_mc_errors = bool(tape.draw(2))
-    fresh_strings = bool(tape.draw(2))
+    loader_kind = tape.draw(3)  # DictLoader / FunctionLoader returning a fresh string per load / ChoiceLoader with a shadowed copy
+    fresh_strings = loader_kind == 1
     write_buffer = (8192, 16, 256)[tape.draw(3)]
     nrounds = 3 + tape.draw(8)
     rounds = []
@@ -366,6 +374,11 @@ def run(tape: Tape) -> Outcome:
         if fresh_strings:
             # like a loader that reads its source anew on every load: a fresh string object each time
             loader = jinja2.FunctionLoader(lambda name: (store[name] + " ")[:-1] if name in store else None)
+        elif loader_kind == 2:
+            # the same names exist, with other content, in a lower-priority loader: a failing cache write inside the
+            # first delegate's load() must not make the choice fall through to it
+            shadow = {n_: f"SHADOWED {n_}\n{{{{ s }}}}" for n_ in names}
+            loader = jinja2.ChoiceLoader([jinja2.DictLoader(store), jinja2.DictLoader(shadow)])
         else:
             loader = jinja2.DictLoader(store)
         p.env = make_env(p.cfg, loader, bcc)
@@ -740,7 +753,7 @@ def run(tape: Tape) -> Outcome:
     out.count("syscall_events", fs.nevents)
     out.decoded = {
         "backend": backend, "config_mode": mode_name, "configs": cfgs, "write_buffer": write_buffer,
-        "loader": "FunctionLoader (fresh source string per load)" if fresh_strings else "DictLoader",
+        "loader": ("DictLoader", "FunctionLoader (fresh source string per load)", "ChoiceLoader([DictLoader, shadow DictLoader])")[loader_kind],
         "ignore_memcache_errors": ignore_mc_errors if backend == "memcached" else None,
         "rounds": [list(r) for r in rounds], "fault_plan(kind,a,b)": [list(f_) for f_ in faults],
         "fired": [list(map(str, f_)) for f_ in fs.fired + mc.fired], "steps": steps_dec,
@@ -761,6 +774,12 @@ def _after_crash(fs, procs, power_loss, out) -> None:
             power_loss(f_[2])
             out.count("power_loss")
             fs.faults[idx] = ("spent",)
+
+
+
+from sim.core import guarded as _guarded  # noqa: E402
+
+run = _guarded(run)
 
 
 def unit(index: int, seed: int, tier: str):
